@@ -361,9 +361,14 @@ type Switch struct {
 func New(cfg Config, currentHeight uint32) (*Switch, error) {
 	resStore := newResolutionStore(cfg.DB)
 
+	// The circuit map trims the keystones of HTLCs that never reached a
+	// commitment on startup. This must include waiting close channels: no
+	// link will be started for them that would trim its own keystones, and
+	// an HTLC that was never committed is unknown to the contract court,
+	// so nothing else would ever roll back such a circuit.
 	circuitMap, err := NewCircuitMap(&CircuitMapConfig{
 		DB:                    cfg.DB,
-		FetchAllOpenChannels:  cfg.FetchAllOpenChannels,
+		FetchAllOpenChannels:  cfg.FetchAllChannels,
 		FetchClosedChannels:   cfg.FetchClosedChannels,
 		ExtractErrorEncrypter: cfg.ExtractErrorEncrypter,
 		CheckResolutionMsg:    resStore.checkResolutionMsg,
